@@ -142,13 +142,16 @@ Definition set_grace (s : dstate) (admin : bool) (g : Z) : outcome dstate :=
 Inductive dop :=
 | DNewEpoch (collector_ok : bool) (fee : Z)
 | DClaim (who : Z) (first_bonded : option Z) (shares : list (Z * share))
-| DSetGrace (admin : bool) (g : Z).
+| DSetGrace (admin : bool) (g : Z)
+| DStray (x : Z).                   (* a plain bank transfer of x > 0 of the distribution asset to the distributor's address by
+                                       anybody: no contract code runs, the amount belongs to no epoch *)
 
 (* effect of an accepted call: what was paid to whom, for which epochs *)
 Inductive deffect :=
 | FNew (id : Z) (fee : Z)
 | FPaid (who : Z) (ids : list Z) (amount : Z)
-| FGrace (g : Z).
+| FGrace (g : Z)
+| FStray (x : Z).
 
 Definition dstep (c : dcfg) (now : Z) (s : dstate) (o : dop) : outcome (dstate * deffect) :=
   match o with
@@ -157,6 +160,9 @@ Definition dstep (c : dcfg) (now : Z) (s : dstate) (o : dop) : outcome (dstate *
       do r <- claim s who fb shares;
       Ok (fst r, FPaid who (map de_id (claimable s who fb)) (snd r))
   | DSetGrace admin g => do s' <- set_grace s admin g; Ok (s', FGrace g)
+  | DStray x =>
+      do _ <- ensure (0 <? x) E_OTHER;                              (* bank: an empty amount cannot be sent *)
+      Ok (mkD (d_epochs s) (d_cursor s) (d_grace s) (d_bal s + x), FStray x)
   end.
 
 Definition dsevent := (Z * dop)%type.
@@ -171,6 +177,10 @@ Fixpoint dseffects (c : dcfg) (s : dstate) (h : list dsevent) : list deffect :=
               | _ => dseffects c s r
               end
   end.
+
+(* what plain transfers added to the balance over the accepted steps *)
+Definition stray_of (f : deffect) : Z := match f with FStray x => x | _ => 0 end.
+Definition strays (fs : list deffect) : Z := sumZ (map stray_of fs).
 
 Definition sum_avail (l : list depoch) : Z := sumZ (map (fun e => oz (de_avail e)) l).
 Definition sum_claimed (l : list depoch) : Z := sumZ (map (fun e => oz (de_claimed e)) l).
